@@ -1031,3 +1031,225 @@ Proof.
     rdone. }
   rdone.
 Qed.
+
+(* ------------------------------------------------------------------ re-rooting through the parent *)
+Lemma set_reg_l_length r o l : r < length l -> length (set_reg_l r o l) = length l.
+Proof.
+  revert r; induction l as [|x t IH]; intros [|r] H; cbn in *; try lia. f_equal. apply IH. lia.
+Qed.
+Lemma nth_error_set_reg_l_eq r o l : nth_error (set_reg_l r o l) r = Some o.
+Proof.
+  revert l; induction r as [|r IH]; intros [|x t]; cbn; auto.
+Qed.
+Lemma nth_error_set_reg_l_neq r q o l : q <> r -> r < length l -> nth_error (set_reg_l r o l) q = nth_error l q.
+Proof.
+  revert q l; induction r as [|r IH]; intros [|q] [|x t] Hq Hl; cbn in *; try lia; auto.
+  apply IH; lia.
+Qed.
+Lemma firstn_map_app_len2 {A B} (F : A -> B) (l : list A) x y :
+  firstn (length l) (map F (l ++ [x; y])) = map F l.
+Proof. rewrite map_app. rewrite <- (map_length F l). apply firstn_app_len. Qed.
+Lemma nth_error_app_at2 {A} (l : list A) x y : nth_error (l ++ [x; y]) (S (length l)) = Some y.
+Proof. rewrite nth_error_app2 by lia. replace (S (length l) - length l) with 1 by lia. reflexivity. Qed.
+Lemma nth_error_app_at1 {A} (l : list A) x y : nth_error (l ++ [x; y]) (length l) = Some x.
+Proof. rewrite nth_error_app2 by lia. now rewrite Nat.sub_diag. Qed.
+
+Lemma reroot_spec ts rs r tid ri T pp kd pre N post g :
+  nth_error rs r = Some (Some (mk_hnd tid (pp ++ [length pre]))) ->
+  nth_error ts tid = Some (mk_slot true ri T) ->
+  get_path T pp = Some (Node kd (pre ++ N :: post)) -> is_node g = true ->
+  exists ts' rs',
+    runs (reroot r true g) (mk_state ts rs) tt (mk_state ts' rs') /\
+    length rs' = length rs /\
+    nth_error ts' tid = Some (mk_slot true ri (upd_path T pp (fun _ => Node kd (pre ++ g :: post)))) /\
+    nth_error rs' r = Some (Some (mk_hnd tid (pp ++ [length pre]))) /\
+    (forall q g0, q <> r -> nth_error rs q = Some (Some g0) -> h_tid g0 < length ts -> above tid pp g0 ->
+                  nth_error rs' q = Some (Some g0)).
+Proof.
+  intros Hr HT HG Hnode.
+  pose proof (nth_error_Some_lt _ _ _ HT) as Hlt. pose proof (nth_error_Some_lt _ _ _ Hr) as Hrl.
+  set (ts1 := ts ++ [mk_slot true 0 g]).
+  set (rs2 := rs ++ [Some (mk_hnd (length ts) []); Some (mk_hnd tid pp)]).
+  assert (Hr2 : nth_error rs2 r = Some (Some (mk_hnd tid (pp ++ [length pre])))) by (now apply nth_error_app_l).
+  destruct (splice_replace_spec ts1 rs2 (S (length rs)) (length rs) tid ri T pp kd pre N post (length ts) 0 g
+              (nth_error_app_at2 _ _ _) (nth_error_app_at1 _ _ _) (nth_error_app_l _ _ _ _ HT) HG
+              (nth_error_app_at _ _) ltac:(lia))
+    as (ts' & F & R & L & T' & N' & O & S1 & S2 & A).
+  assert (Lts1 : length ts1 = S (length ts)) by (unfold ts1; rewrite app_length; cbn; lia).
+  assert (HG' : get_path (upd_path T pp (fun _ => Node kd (pre ++ g :: post))) pp = Some (Node kd (pre ++ g :: post)))
+    by (now apply get_path_upd_path with (n := Node kd (pre ++ N :: post))).
+  exists ts', (set_reg_l r (Some (mk_hnd tid (pp ++ [length pre]))) (map (option_map F) rs)).
+  split; [|split; [|split; [|split]]].
+  - unfold reroot. rbind; [apply runs_get_reg; exact Hr|]. rewrite parent_h_app.
+    rbind; [|apply runs_set_reg].
+    eapply runs_eq; [apply runs_scoped|reflexivity|].
+    + rbind; [apply runs_alloc|]. rbind; [apply runs_push_tmp|]. rbind; [apply runs_push_tmp|].
+      rewrite <- app_assoc. cbn [app]. rewrite app_length. cbn [length].
+      replace (length rs + 1) with (S (length rs)) by lia.
+      rbind; [exact R|].
+      rbind; [apply runs_get_reg; rewrite (nth_error_map_reg F _ _ _ Hr2); rewrite S1; reflexivity|].
+      rbind.
+      { unfold index_of, parent_h. cbn [h_path split_last h_tid]. rbind; [eapply runs_get_slot; exact N'|]. rdone. }
+      cbn [s_ridx].
+      rbind.
+      { apply runs_get_reg. unfold rs2. rewrite (nth_error_map_reg F _ _ _ (nth_error_app_at2 _ _ _)).
+        rewrite A; [reflexivity|cbn [h_tid]; lia|apply above_self]. }
+      rbind; [eapply runs_children_of; [exact T'|exact HG']|]. cbn [children s_tree].
+      rewrite nth_error_app_len. rewrite Hnode. rdone.
+    + unfold rs2. now rewrite firstn_map_app_len2.
+  - rewrite set_reg_l_length; rewrite map_length; auto.
+  - exact T'.
+  - apply nth_error_set_reg_l_eq.
+  - intros q g0 Hq Hq0 Hg0 Ha. rewrite nth_error_set_reg_l_neq by (rewrite ?map_length; auto).
+    rewrite (nth_error_map_reg F _ _ _ Hq0). rewrite A; [reflexivity|lia|exact Ha].
+Qed.
+
+(* ------------------------------------------------------------------ Relation::set_version / drop_constraint *)
+Definition qual_elems (q : option str) : list rtree :=
+  match q with Some q => [archqual_node q] | None => [] end.
+Lemma crel_tree_shape n q v :
+  crel_tree (mk_relrec n q v None []) =
+  Node RELATION ((Tok IDENT n :: qual_elems q) ++
+                 match v with Some (vc, ver) => [t_space; version_node vc ver] | None => [] end).
+Proof. destruct q; reflexivity. Qed.
+
+Lemma drop_constraint_spec n q vc0 ver0 ts rs r tid ri T p :
+  nth_error rs r = Some (Some (mk_hnd tid p)) -> nth_error ts tid = Some (mk_slot true ri T) ->
+  get_path T p = Some (crel_tree (mk_relrec n q (Some (vc0, ver0)) None [])) ->
+  exists ts' F,
+    runs (relation_drop_constraint r) (mk_state ts rs) true (mk_state ts' (map (option_map F) rs)) /\
+    nth_error ts' tid = Some (mk_slot true ri (upd_path T p (fun _ => crel_tree (mk_relrec n q None None [])))) /\
+    (forall g, h_tid g < length ts -> above tid p g -> F g = g).
+Proof.
+  intros Hr HT HG. pose proof (nth_error_Some_lt _ _ _ HT) as Hlt.
+  set (pre0 := Tok IDENT n :: qual_elems q).
+  assert (Ecs : crel_tree (mk_relrec n q (Some (vc0, ver0)) None [])
+                = Node RELATION (pre0 ++ [t_space] ++ version_node vc0 ver0 :: [])).
+  { rewrite crel_tree_shape. reflexivity. }
+  rewrite Ecs in HG.
+  set (rs1 := rs ++ [Some (mk_hnd tid (p ++ [length pre0 + length [t_space]]))]).
+  destruct (detach_prev_repeat [t_space] ts rs1 (length rs) tid ri T p RELATION pre0 (version_node vc0 ver0) []
+              (nth_error_app_at _ _) HT HG) as (ts1 & F1 & R1 & L1 & T1 & O1 & S1 & A1).
+  set (T1' := upd_path T p (fun _ => Node RELATION (pre0 ++ [version_node vc0 ver0]))) in *.
+  assert (HG1 : get_path T1' p = Some (Node RELATION (pre0 ++ [version_node vc0 ver0])))
+    by (now apply get_path_upd_path with (n := Node RELATION (pre0 ++ [t_space] ++ [version_node vc0 ver0]))).
+  assert (Hr1 : nth_error (map (option_map F1) rs1) (length rs) = Some (Some (mk_hnd tid (p ++ [length pre0]))))
+    by (unfold rs1; rewrite (nth_error_map_reg F1 _ _ _ (nth_error_app_at _ _)); now rewrite S1).
+  destruct (detach_reg_spec ts1 _ (length rs) tid ri T1' p RELATION pre0 (version_node vc0 ver0) [] Hr1 T1 HG1)
+    as (ts2 & F2 & R2 & L2 & T2 & N2 & O2 & S2 & A2).
+  exists ts2, (fun g => F2 (F1 g)). split; [|split].
+  - unfold relation_drop_constraint. rbind; [apply runs_get_reg; exact Hr|].
+    rbind; [eapply runs_children_of; [exact HT|exact HG]|]. cbn [children].
+    assert (Efi : find_index (node_is VERSION) (pre0 ++ [t_space] ++ [version_node vc0 ver0]) = Some (length pre0 + 1))
+      by (destruct q; reflexivity).
+    rewrite Efi.
+    rbind; [|rdone].
+    eapply runs_eq; [apply runs_scoped|reflexivity|].
+    + rbind; [apply runs_push_tmp|]. unfold child_h. cbn [h_tid h_path].
+      assert (Ews : ws_prefix_len (rev (firstn (length pre0 + 1) (pre0 ++ [t_space] ++ [version_node vc0 ver0]))) = 1)
+        by (destruct q; reflexivity).
+      rewrite Ews. change 1 with (length [t_space]) at 2.
+      rbind; [exact R1|]. exact R2.
+    + rewrite map_option_map_comp. unfold rs1. now rewrite firstn_map_app_len.
+  - rewrite T2. f_equal. f_equal. unfold T1'. rewrite (upd_path_const2 _ _ _ _ _ HG).
+    eapply upd_path_ext; [exact HG|]. rewrite crel_tree_shape. now rewrite !app_nil_r.
+  - intros g Hg Ha. rewrite A1 by exact Ha. now apply A2.
+Qed.
+
+Lemma set_version_none_node_op r0 : plain r0 = true ->
+  node_op (fun r => relation_set_version fixed r None) (crel_tree r0) (crel_tree (rr_set_version None r0)).
+Proof.
+  intros Hp. destruct (plain_inv _ Hp) as (n & q & v & ->). apply node_op_from_F.
+  intros ts rs r tid ri T p Hr HT HG. cbn [relation_set_version].
+  destruct v as [[vc0 ver0]|].
+  - destruct (drop_constraint_spec n q vc0 ver0 ts rs r tid ri T p Hr HT HG) as (ts' & F & R & T' & A).
+    exists ts', F. split; [|split; [exact T'|exact A]]. rbind; [exact R|]. rdone.
+  - exists ts, (fun g => g). rewrite map_option_map_id. split; [|split; [|auto]].
+    + rbind; [|rdone]. unfold relation_drop_constraint. rbind; [apply runs_get_reg; exact Hr|].
+      rbind; [eapply runs_children_of; [exact HT|exact HG]|].
+      assert (find_index (node_is VERSION) (children (crel_tree (mk_relrec n q None None []))) = None) as ->
+        by (destruct q; reflexivity).
+      rdone.
+    + unfold rr_set_version. cbn [rr_name rr_qual rr_archs rr_profs]. now rewrite (upd_path_same _ _ _ HG).
+Qed.
+
+Lemma set_version_some_node_op vc ver r0 : plain r0 = true ->
+  node_op (fun r => relation_set_version fixed r (Some (vc, ver)))
+          (crel_tree r0) (crel_tree (rr_set_version (Some (vc, ver)) r0)).
+Proof.
+  intros Hp. destruct (plain_inv _ Hp) as (n & q & v & ->).
+  unfold rr_set_version. cbn [rr_name rr_qual rr_archs rr_profs].
+  destruct v as [[vc0 ver0]|].
+  - (* replace the VERSION node *)
+    apply node_op_from_F. intros ts rs r tid ri T p Hr HT HG.
+    set (pre := (Tok IDENT n :: qual_elems q) ++ [t_space]).
+    assert (Ecs : crel_tree (mk_relrec n q (Some (vc0, ver0)) None []) = Node RELATION (pre ++ version_node vc0 ver0 :: []))
+      by (rewrite crel_tree_shape; unfold pre; now rewrite <- app_assoc).
+    rewrite Ecs in HG.
+    destruct (splice_new_replace_spec ts rs r tid ri T p RELATION pre _ [] (version_node vc ver) Hr HT HG)
+      as (ts' & F & R & T' & A).
+    exists ts', F. split; [|split; [|exact A]].
+    + cbn [relation_set_version]. rbind; [apply runs_get_reg; exact Hr|].
+      rbind; [eapply runs_node_of; [exact HT|exact HG]|]. cbn [children].
+      assert (find_index (node_is VERSION) (pre ++ [version_node vc0 ver0]) = Some (length pre)) as ->
+        by (destruct q; reflexivity).
+      exact R.
+    + rewrite T'. f_equal. f_equal. eapply upd_path_ext; [exact HG|].
+      rewrite crel_tree_shape. unfold pre. now rewrite <- app_assoc.
+  - (* insert " (op ver)" at the end, re-rooting through the parent *)
+    intros ts rs r tid ri T pp i Hr HT HG.
+    destruct (get_path_snoc_inv _ _ _ _ HG) as (kd & pre & post & HGp & <-).
+    set (cs := children (crel_tree (mk_relrec n q None None []))).
+    set (g := Node RELATION (cs ++ [t_space; version_node vc ver])).
+    destruct (reroot_spec ts rs r tid ri T pp kd pre _ post g Hr HT HGp eq_refl)
+      as (ts' & rs' & R & L & T' & S & A).
+    exists ts', rs'. split; [|split; [exact L|split; [|split; [exact S|exact A]]]].
+    + cbn [relation_set_version]. rbind; [apply runs_get_reg; exact Hr|].
+      rbind; [eapply runs_node_of; [exact HT|exact HG]|].
+      assert (find_index (node_is VERSION) (children (crel_tree (mk_relrec n q None None []))) = None) as ->
+        by (destruct q; reflexivity).
+      assert (Eg : set_children (insert_at (version_pos fixed (children (crel_tree (mk_relrec n q None None []))))
+                                 [t_space; version_node vc ver] (children (crel_tree (mk_relrec n q None None []))))
+                                (crel_tree (mk_relrec n q None None [])) = g)
+        by (destruct q; reflexivity).
+      rewrite Eg. exact R.
+    + rewrite T'. f_equal. f_equal.
+      assert (Eg2 : crel_tree (mk_relrec n q (Some (vc, ver)) None []) = g)
+        by (unfold g, cs; destruct q; reflexivity).
+      rewrite Eg2. symmetry. apply (upd_path_snoc _ _ _ _ _ _ g HGp).
+Qed.
+
+Lemma runs_bind_inv {A B} (m : M A) (f : A -> M B) st b st2 :
+  runs (mbind m f) st b st2 -> exists a st1, runs m st a st1 /\ runs (f a) st1 b st2.
+Proof.
+  unfold runs, mbind. destruct (m st) as [[a st1]| | |]; try discriminate. intros H. now exists a, st1.
+Qed.
+Lemma runs_ret_inv {A} (a b : A) st st' : runs (ret a) st b st' -> a = b /\ st = st'.
+Proof. unfold runs, ret. intros [= -> ->]. now split. Qed.
+
+(* the wrappers of run_op around an operation through relation register 0 *)
+Definition wraps (X : op) (m : nat -> M unit) : Prop :=
+  forall ts a b c d tid0 ts' a' h c' d' sl n,
+    runs (m 2) (st5 ts (mk_hnd tid0 []) a (Some b) c d) tt (st5 ts' (mk_hnd tid0 []) a' (Some h) c' d') ->
+    nth_error ts' (h_tid h) = Some sl -> get_path (s_tree sl) (h_path h) = Some n ->
+    exists x, runs (run_op fixed X) (st5 ts (mk_hnd tid0 []) a (Some b) c d) x
+                   (st5 ts' (mk_hnd tid0 []) a' (Some h) c' d').
+
+Lemma wraps_through X m : run_op fixed X = through 2 (m 2) -> wraps X m.
+Proof.
+  intros E ts a b c d tid0 ts' a' h c' d' sl n R Hs Hg. eexists. rewrite E. eapply through_runs; eauto.
+Qed.
+Lemma wraps_drop_constraint : wraps (ODropConstraint 0) (fun r => relation_set_version fixed r None).
+Proof.
+  intros ts a b c d tid0 ts' a' h c' d' sl n R Hs Hg. cbn [relation_set_version] in R.
+  destruct (runs_bind_inv _ _ _ _ _ R) as (bb & st1 & R1 & R2).
+  apply runs_ret_inv in R2. destruct R2 as [_ ->].
+  eexists. cbn [run_op rreg Nat.mul Nat.add]. unfold st5 in *.
+  eapply runs_with_reg_some; [reflexivity|].
+  rbind; [exact R1|]. unfold reg_text, node_of_reg.
+  rbind.
+  { rbind.
+    { rbind; [apply runs_get_reg; reflexivity|]. destruct h as [ht hp]. eapply runs_node_of; [exact Hs|exact Hg]. }
+    rdone. }
+  rdone.
+Qed.
